@@ -130,6 +130,8 @@ type recordedRequest struct {
 type recordingTransport struct {
 	mu   sync.Mutex
 	reqs []recordedRequest
+	// hang: the server accepts the request and never answers; the round trip ends when the request's context does
+	hang bool
 }
 
 func (rt *recordingTransport) take() []recordedRequest {
@@ -156,6 +158,13 @@ func (rt *recordingTransport) RoundTrip(req *http.Request) (*http.Response, erro
 	}
 	p := req.URL.Path
 	q := req.URL.Query()
+	rt.mu.Lock()
+	hang := rt.hang
+	rt.mu.Unlock()
+	if hang {
+		<-req.Context().Done()
+		return nil, req.Context().Err()
+	}
 	status, body := rt.answer(p, q)
 	rt.mu.Lock()
 	rt.reqs = append(rt.reqs, recordedRequest{Method: req.Method, Path: p, Query: q, Status: status})
@@ -241,6 +250,7 @@ func sameQuery(a, b url.Values) bool {
 // Clients decides the request construction of every typed client:
 // 12 packages x namespace {"" , "ns1"} x {List, Watch}.
 func Clients() *runner.ExtraResult {
+	ctxWait := 20 * time.Second
 	res := &runner.ExtraResult{Name: "c20-clients", Coverage: map[string]interface{}{}}
 	complete := true
 	viol := func(sig, msg string) {
@@ -472,6 +482,37 @@ func Clients() *runner.ExtraResult {
 					(pkg == "node" && verb == "list" && ns == "ns1") {
 					res.Samples = append(res.Samples, fmt.Sprintf("%s: %s %s query %s -> %s", id, r.Method, r.Path, fmtQuery(r.Query), typeName(gotType)))
 				}
+			}
+			// lifecycle: List and Watch run on the CALLER's context - when the server hangs, cancelling it ends the call
+			// (the controller's shutdown relies on it).  The bound is generous wall-clock time, only reached on a defect.
+			for _, verb := range []string{"list", "watch"} {
+				res.Distinct++
+				rt.mu.Lock()
+				rt.hang = true
+				rt.mu.Unlock()
+				cctx, cancel := context.WithCancel(ctx)
+				returned := make(chan struct{})
+				go func() {
+					defer close(returned)
+					if verb == "list" {
+						c.List(cctx, metav1.ListOptions{})
+					} else if w, err := c.Watch(cctx, metav1.ListOptions{ResourceVersion: "42", Watch: true}); err == nil && w != nil {
+						w.Stop()
+					}
+				}()
+				time.Sleep(20 * time.Millisecond)
+				cancel()
+				cmp()
+				select {
+				case <-returned:
+				case <-time.After(ctxWait):
+					ctxWait = time.Second // one such finding is enough to wait for at length
+					viol(fmt.Sprintf("%s %s %s ignores the caller's context", pkg, verb, nsTag), fmt.Sprintf("%s %s %s: the server accepted the request and never answered; the caller cancelled its context and the call had not returned 20 s later", pkg, verb, nsTag))
+				}
+				rt.mu.Lock()
+				rt.hang = false
+				rt.mu.Unlock()
+				rt.take()
 			}
 		}
 	}
